@@ -292,7 +292,7 @@ def cached_verus(path, text, extra=()):
     """Verus on `text` (written to `path`); results are memoised by the exact verifier input + options, so that the
     checks of several properties sharing a unit do not repeat an identical verifier run."""
     key = hashlib.sha256((VERUS_ID + '\0' + ' '.join(extra) + '\0' + text).encode()).hexdigest()
-    cdir = os.path.join(WORK, 'cache')
+    cdir = os.environ.get('VERIF_CACHE') or os.path.join(WORK, 'cache')
     os.makedirs(cdir, exist_ok=True)
     cp = os.path.join(cdir, key + '.json')
     open(path, 'w').write(text)
@@ -525,6 +525,12 @@ def main():
             replay_viol += 1
         elif r['ok'] is None:
             undecided.append('native replay %s did not build/run' % r['test'])
+    selftest = []
+    if a.tier == 'thorough' and os.environ.get('VERIF_SELFTEST') != '1':
+        selftest = seed_selftest(pid, a.repo)
+        for st in selftest:
+            if st.get('applies_to_this_tree') and not st.get('detected'):
+                print('NOTE: stored seeded change %s is NOT detected by this check on a scratch copy (checker adequacy, not a verdict on the tree)' % st['seed'])
     wall = time.time() - t0
     n_obl = len(set(obligations))
     failed_names = set('%s/%s' % (f[0], f[1]) for f in mine if f[4] == 'explicit')
@@ -552,6 +558,7 @@ def main():
             'proof_stability_reruns': stability,
             'contracts_assumed_in_a_unit_and_proved_in_another': sorted(set(assumed_here)),
             'bounded_native_replays': [{'test': r['test'], 'cases_passed': r['passed'], 'cases_failed': r['failed']} for r in replays],
+            'seeded_changes_selftest_on_scratch_copies': selftest,
             'known_findings': [f[1] for f in knowns],
             'undecided': undecided,
             'evaluations': verified_fns, 'distinct_nontrivial': n_obl,
@@ -601,6 +608,39 @@ def run_replays(pid, repo):
             res.append({'test': t, 'ok': None, 'passed': 0, 'failed': 0, 'failed_cases': [], 'output': out[-3000:]})
     _REPLAY_CACHE[(pid, repo)] = res
     return res
+
+
+def seed_selftest(pid, repo):
+    """thorough tier: apply every stored seeded change of this property (seeded/<pid>_*/patch.diff: changes that break the
+    property, compile and pass the repository's tests) to a scratch COPY of the tree and run this same check on it.
+    Reports which of them the check detects and how; the verdict on the real tree is not affected."""
+    import shutil
+    out = []
+    base = os.path.join(WORK, 'seedtest', pid)
+    copy = os.path.join(base, 'repo')
+    try:
+        for d in sorted(glob.glob(os.path.join(ROOT, 'seeded', pid + '_*'))):
+            patch = os.path.join(d, 'patch.diff')
+            if not os.path.exists(patch):
+                continue
+            sid = os.path.basename(d)
+            os.makedirs(copy, exist_ok=True)
+            subprocess.run(['rsync', '-a', '--delete', '--exclude', 'target', '--exclude', '.git', repo.rstrip('/') + '/', copy + '/'], check=True)
+            ap = subprocess.run(['patch', '-p1', '-s', '-f', '-i', patch], cwd=copy, capture_output=True, text=True)
+            if ap.returncode != 0:
+                out.append({'seed': sid, 'applies_to_this_tree': False})
+                continue
+            env = dict(os.environ, VERIF_WORK=os.path.join(base, 'work'), VERIF_CACHE=os.environ.get('VERIF_CACHE') or os.path.join(WORK, 'cache'), VERIF_SELFTEST='1')
+            t0 = time.time()
+            r = subprocess.run([sys.executable, os.path.abspath(__file__), pid, '--repo', copy, '--no-evidence', '--tier', 'quick'], capture_output=True, text=True, env=env)
+            vl = [l for l in r.stdout.split('\n') if l.startswith('VIOLATION property=%s ' % pid)]
+            by_verus = [l for l in vl if 'obligation=native:' not in l]
+            out.append({'seed': sid, 'applies_to_this_tree': True, 'detected': bool(vl), 'exit': r.returncode,
+                        'by': ('failed Verus obligation' if by_verus else ('bounded native replay' if vl else None)),
+                        'obligations': sorted(set(re.findall(r'obligation=(\S+)', ' '.join(vl))))[:6], 'wall_s': round(time.time() - t0, 1)})
+    finally:
+        shutil.rmtree(base, ignore_errors=True)
+    return out
 
 
 def run_falsifier(pid, name, repo):
